@@ -279,7 +279,7 @@ func (c *Ctx) runConc(label string, jobs []concJob) {
 				c.Violation("", fmt.Sprintf("%s: engine %s, %s: %.300s (reproduced)", label, jobs[i].engine, jobs[i].label, r.Panics[0]),
 					map[string]interface{}{"kind": "bt-conc", "job": jobs[i], "panic": r.Panics[0]})
 			} else {
-				c.Inconclusive("%s: a panic did not reproduce in 4 re-executions: %.200s", label, r.Panics[0])
+				c.Unreproduced("%s: a panic did not reproduce in 4 re-executions: %.200s", label, r.Panics[0])
 			}
 			continue
 		}
@@ -360,7 +360,7 @@ func (c *Ctx) runConc(label string, jobs []concJob) {
 			}
 		}
 		if again < 2 {
-			c.Inconclusive("%s: run %d (%s, engine %s) was rejected at event %d (%s) but re-execution was accepted %d/3 times: not reported", label, rj.ID, jb.label, jb.engine, rj.L, rj.Pt, 3-again)
+			c.Unreproduced("%s: run %d (%s, engine %s) was rejected at event %d (%s) but re-execution was accepted %d/3 times", label, rj.ID, jb.label, jb.engine, rj.L, rj.Pt, 3-again)
 			continue
 		}
 		what := fmt.Sprintf("%s: engine %s, %s: the recorded concurrent run is not a behaviour of the specification (event %d %s: %s; reproduced %d/3)", label, jb.engine, jb.label, lastRj.L, lastRj.Pt, lastRj.Why, again)
